@@ -122,7 +122,7 @@ int main(int argc, char **argv) {
             c.blobs = {*gx::bytes(0, 40), *gx::bytes(0, 40), *gx::bytes(16, 16)};
             return c;
         });
-        ok = run_cases(a, ev, "c04-tuples", a.n(20000, 2000000), 100, gen, run);
+        ok = run_cases(a, ev, "c04-tuples", a.n(100000, 2000000), 100, gen, run);
     }
     ev.write(a.out);
     return ok ? 0 : 1;
